@@ -53,6 +53,8 @@ where
             })
         });
 
+        #[cfg(feature = "verif")]
+        crate::verif::failpoint(crate::verif::Site::BeforeExecute);
         let (new_value, mut completed_query) = match C::CYCLE_STRATEGY {
             CycleRecoveryStrategy::Panic => {
                 let (new_value, active_query) = Self::execute_query(
@@ -79,6 +81,8 @@ where
             }
         };
 
+        #[cfg(feature = "verif")]
+        crate::verif::failpoint(crate::verif::Site::AfterExecute);
         if let Some(old_memo) = opt_old_memo {
             // If the new value is equal to the old one, then it didn't
             // really change, even if some of its inputs have. So we can
@@ -308,6 +312,8 @@ where
 
             last_stale_tracked_ids = completed_query.stale_tracked_structs;
 
+            #[cfg(feature = "verif")]
+            crate::verif::failpoint(crate::verif::Site::BetweenIterations);
             continue;
         };
 
